@@ -145,16 +145,17 @@ class JsonCodeGen(IntermediateCodeGen):
 
                 modData[object_oid].append(module)
 
-            if modData:
-                unique_prefixes = {}
-                for oid in sorted(modData, key=lambda x: x.count('.')):
-                    for oid_prefix, modules in unique_prefixes.items():
-                        if (oid + '.').startswith(oid_prefix + '.') and set(modules).issuperset(modData[oid]):
-                            break
-                    else:
-                        unique_prefixes[oid] = modData[oid]
+        modData = outDict['oids']
+        if modData:
+            unique_prefixes = {}
+            for oid in sorted(modData, key=lambda x: x.count('.')):
+                for oid_prefix, modules in unique_prefixes.items():
+                    if (oid + '.').startswith(oid_prefix + '.') and set(modules).issuperset(modData[oid]):
+                        break
+                else:
+                    unique_prefixes[oid] = modData[oid]
 
-                outDict['oids'] = unique_prefixes
+            outDict['oids'] = unique_prefixes
 
         if 'comments' in kwargs:
             outDict['meta']['comments'] = kwargs['comments']
